@@ -46,7 +46,7 @@ ASSUMPTIONS = [
     'TaskRejected anywhere in the chain of futures passes the task on; nobody left = TaskRejected outcome); no_reply is not explored',
     'a turn of the loop is atomic (everything ready runs); resume() is followed by a turn of the loop; which exception class a missing '
     'checkpoint raises is C14\'s business (KeyError / FileNotFoundError / PersistenceError all count as NoCheckpoint)',
-    'checkpoints are looked into by recreating the process they describe from a deep copy of the stored bundle',
+    'checkpoints are looked into by recreating the process they describe from a pickled copy of the stored bundle',
 ]
 
 
@@ -260,10 +260,10 @@ def run(tier, seed):
     full = configs(BASES, ARGS)
     if tier == 'quick':
         mcs = [dict(name='MC_C17_K2', cfgs=full, k=2, saves=1, classes=ALL_CLASSES)]
-        # replay: every base configuration with keyword arguments, each other argument style on two seeded base configurations
+        # replay: every base configuration with keyword arguments, invalid arguments and one other argument style on one seeded configuration with a persister each
         sel = configs(BASES, ['kw'])
-        for a in ('none', 'pos', 'bad'):
-            sel += configs(rng.sample(BASES[2:], 1) + rng.sample(BASES, 1), [a])
+        for a in (rng.choice(['none', 'pos']), 'bad'):
+            sel += configs(rng.sample(BASES[2:], 1), [a])
         sel = [dict(t) for t in sorted({tuple(sorted(c.items())) for c in sel})]
         rps = [dict(name='MC_C17_dump_K2', cfgs=sel, k=2, saves=1, classes=ALL_CLASSES)]
     else:
